@@ -176,7 +176,7 @@ func c12ToInt(c *Ctx) {
 	r.Check(okR && w == 1 && tpu != nil && tpu.Value.Int64() == 40, "C12.toInt.radix", c.P.Pos(g.Pos()), "uint64Radix = 3^40 = %s (3^40 < 2^64 <= 3^41), single writer; tritsPerUint64 = 40", three40)
 	// structure
 	hdr := "obj(alloc<math/big.Int>, call<(*math/big.Int).SetUint64>(self, bin<+>(bin<+>(call<*>(load(iaddr(p0, 240))), bin<*>(call<*>(load(iaddr(p0, 241))), 3)), bin<*>(call<*>(load(iaddr(p0, 242))), 9))), ...)"
-	chunk := "slice(p0, bin<*>(ind<-1>(5), 40), bin<+>(bin<*>(ind<-1>(5), 40), 40))"
+	chunk := "slice(p0, bin<+>(bin<*>(ind<-1>(0), 40), 200), bin<+>(bin<*>(ind<-1>(0), 40), 240))" // canonical form of t[i*40 : i*40+40] for i = 5..0
 	horner := "phi(0, bin<+>(bin<*>(cycle, 3), call<*>(load(iaddr(" + chunk + ", ind<-1>(bin<->(len(" + chunk + "), 1)))))))"
 	okOuter := len(edgesMatching(b, "bin<>=>(ind<-1>(5), 0)")) == 1
 	okInner := len(edgesMatching(b, "bin<>=>(ind<-1>(bin<->(len("+chunk+"), 1)), 0)")) == 1
